@@ -97,8 +97,6 @@ func RandIndex(r *cq.RNG, n int) int {
 
 // RandFreq: multiples of 100 Hz near the band, duplicates of existing
 // channels, non-multiples of 100 Hz, zero, and the 2.4 GHz / 32-bit extremes.
-// Frequencies from 2.4 GHz are either multiples of 200 Hz or not multiples of
-// 100 Hz (NewChannelReq's 200 Hz stepping, property C07, is not re-tested here).
 func RandFreq(r *cq.RNG, existing []Chan) uint32 {
 	switch r.Intn(12) {
 	case 0:
@@ -110,9 +108,9 @@ func RandFreq(r *cq.RNG, existing []Chan) uint32 {
 	case 3:
 		return uint32(400000000+r.Intn(600000000)) + uint32(1+r.Intn(99)) // not a multiple of 100
 	case 4:
-		return []uint32{1677721500, 1677721600, 1199999900, 4294967295, 4294967200, 2400000000, 2483400000, 100, 1677721599}[r.Intn(9)]
+		return []uint32{1677721500, 1677721600, 1199999900, 4294967295, 4294967200, 2400000000, 2483400000, 100, 1677721599, 2400000100, 2450000300}[r.Intn(11)]
 	case 5:
-		return uint32(2400000000 + 200*r.Intn(400000))
+		return uint32(2400000000 + 100*r.Intn(800000))
 	}
 	base := uint32(863000000)
 	if len(existing) > 0 {
